@@ -387,6 +387,23 @@ func c24Leftmost(c *Ctx, rem *ssa.Function) {
 		}
 		// hit is the index at which the search loop was left on an equal element: phi(-1 | i) with i the loop index on the break edge
 		okFirst := false
+		if call, ok := stripConv(hit).(*ssa.Call); ok && call.Call.StaticCallee() != nil {
+			// slices.Index(pool, h): the first index holding h, or -1
+			n := call.Call.StaticCallee().String()
+			if call.Call.StaticCallee().Origin() != nil {
+				n = call.Call.StaticCallee().Origin().String()
+			}
+			if n == "slices.Index" && len(call.Call.Args) == 2 && abbr(exprStr(call.Call.Args[0], o)) == "*p0" && abbr(exprStr(call.Call.Args[1], o)) == "p1" {
+				// and nothing is removed when it reports -1
+				neg := false
+				for _, a := range condAtoms(rem, o) {
+					if a == "(slices.Index(*p0, p1) < 0)" || a == "(-1 == slices.Index(*p0, p1))" {
+						neg = true
+					}
+				}
+				okFirst = neg
+			}
+		}
 		if ph, ok := stripConv(hit).(*ssa.Phi); ok {
 			for k, e := range ph.Edges {
 				if _, isC := e.(*ssa.Const); isC {
